@@ -36,6 +36,7 @@ func replayLiterals(args []string) (any, error) {
 			ID string `json:"id"`
 			J  struct {
 				V     string `json:"v"`
+				B     bool   `json:"b"`
 				Bytes []int  `json:"bytes"`
 				I     jI64   `json:"i"`
 				F     jF64   `json:"f"`
@@ -110,6 +111,21 @@ func replayLiterals(args []string) (any, error) {
 				}
 				if !okKind || got != want {
 					detail["problem"] = fmt.Sprintf("denotes %q, parsed %s %q", want, rhs.NodeType, got)
+					sum.miss(sig, detail)
+				}
+			case "bool":
+				if rhs.NodeType != ast.TypeBoolLiteral || rhs.BoolLiteral().Val != j.J.B {
+					detail["problem"] = fmt.Sprintf("denotes the boolean %v, parsed %s %s", j.J.B, rhs.NodeType, rhs)
+					sum.miss(sig, detail)
+				}
+			case "nil":
+				if rhs.NodeType != ast.TypeNilLiteral {
+					detail["problem"] = fmt.Sprintf("denotes nil, parsed %s %s", rhs.NodeType, rhs)
+					sum.miss(sig, detail)
+				}
+			case "ident":
+				if rhs.NodeType != ast.TypeIdentifier || rhs.Identifier().Name != body {
+					detail["problem"] = fmt.Sprintf("is an identifier, parsed %s %s", rhs.NodeType, rhs)
 					sum.miss(sig, detail)
 				}
 			case "int":
